@@ -9,10 +9,11 @@ callbacks of `ReadSequenceOfObjects` / `ReadObject` / `ReadSliceOfObjects` / `Re
 read programs, run on a fresh Deserializer over the remaining bytes — as `serix` and every
 `Serializable.Deserialize` do.
 
-`runPrim p b` gives the outcome class, the bytes consumed (when ok), the values read and the cost of
-one call on remaining input `b`.  The model is the code after `fix:` cc08572 (ReadVariableByteSlice:
-return on a length violation, check the remaining length before `make`).  The offset that `Done()`
-reports next to an error is not modelled (callers discard it).
+`runPrim p b` gives the outcome class, the offset `Done()` reports (the bytes consumed when ok; next to
+an error the offset the failing call left behind: `derr`), the values read and the cost of one call on
+remaining input `b`.  The model is the code after `fix:` cc08572 (ReadVariableByteSlice: return on a
+length violation, check the remaining length before `make`).  The helpers of the chain that read nothing
+(RemainingBytes, GetObjectType, Do, AbortIf, WithValidation) are primitives too.
 -/
 namespace Hive.Deser
 open Hive.Dec
